@@ -144,8 +144,14 @@ theorem assert_band {a x : Nat} {inst : Decidable (Rs.band x (a - 1) = 0)} (ha :
 
 theorem pure_eq_ok {α : Type} (x : α) : (pure x : Rs.M α) = .ok x := id rfl
 
+/-- fails on side conditions (`_ ∣ _`, `P2 _`) that `omega` cannot prove anyway; saves the cost of
+    a failing `omega` call -/
+macro "rs_arith_goal" : tactic =>
+  `(tactic| (fail_if_success (show (_ : Nat) ∣ _); fail_if_success (show P2 _)))
+
+/-- discharger for the side conditions of the rewriting lemmas -/
 macro "rs_disch" : tactic =>
-  `(tactic| first | assumption | omega | (apply Nat.mod_eq_zero_of_dvd; assumption))
+  `(tactic| first | assumption | (rs_arith_goal; omega) | (apply Nat.mod_eq_zero_of_dvd; assumption))
 
 theorem mca : MIN_CHUNK_ALIGN = 16 := rfl
 
@@ -263,12 +269,12 @@ syntax "rs_simp" (" [" Lean.Parser.Tactic.simpLemma,* "]")? : tactic
 macro_rules
   | `(tactic| rs_simp) =>
     `(tactic| simp (disch := rs_disch) only [ok_bind, pure_eq_ok, assert_dec, assert_band, assert_p2, assert_true, add_ok', sub_ok,
-      rem_ok, down_align_eq, up_align_unchecked_eq, as_isize_small', remaining_regular', remaining_dummy,
+      rem_ok, down_align_eq, up_align_unchecked_eq, remaining_regular', remaining_dummy,
       decide_true, decide_false, decide_eq_true_eq, ↓reduceIte, Bool.false_eq_true, Bool.and_true, Bool.and_false,
       Bool.true_and, Bool.false_and])
   | `(tactic| rs_simp [$ls,*]) =>
     `(tactic| simp (disch := rs_disch) only [ok_bind, pure_eq_ok, assert_dec, assert_band, assert_p2, assert_true, add_ok', sub_ok,
-      rem_ok, down_align_eq, up_align_unchecked_eq, as_isize_small', remaining_regular', remaining_dummy,
+      rem_ok, down_align_eq, up_align_unchecked_eq, remaining_regular', remaining_dummy,
       decide_true, decide_false, decide_eq_true_eq, ↓reduceIte, Bool.false_eq_true, Bool.and_true, Bool.and_false,
       Bool.true_and, Bool.false_and, $ls,*])
 
